@@ -148,69 +148,7 @@ func runC03(w *World, r *Report) {
 	}
 
 	// 3a. roll back the reservation on failure, never on success
-	r.rule("rollback-reservation", "after a successful reservation every path to an error return passes removeTrxInVertex of the same hash; no path to a success return does", 4)
-	for _, spec := range []string{"addLeafMemorized", "CreateLeaf"} {
-		f := w.fx(r, "accountant", "AccountingBook", spec)
-		if f == nil {
-			continue
-		}
-		for _, d := range deepCalls(f.fn, func(c ssa.CallInstruction) bool { return calleeName(c) == nSaveTrx }, deepDepth) {
-			g := d.c
-			_, ga := callArgs(g)
-			hp := d.path(ga[0])
-			isRemove := func(in ssa.Instruction, fr *frame) bool {
-				c, ok := in.(ssa.CallInstruction)
-				if !ok || calleeName(c) != nRemoveTrx {
-					return false
-				}
-				_, a := callArgs(c)
-				return fr.cx.res(a[0]) == hp
-			}
-			// start on the success edges; helpers are followed, so a helper that cleans up before it reports a
-			// failure counts, and its successful return does not
-			type rmSite struct {
-				in ssa.Instruction
-				fr *frame
-			}
-			var removals []rmSite
-			var badErr, nSucc int
-			for _, e := range passErrNil(g) {
-				dw := newDeepWalk(func(in ssa.Instruction, fr *frame) bool {
-					if isRemove(in, fr) {
-						removals = append(removals, rmSite{in, fr})
-						return true
-					}
-					if ret, ok := in.(*ssa.Return); ok && fr.top() {
-						if successReturn(ret) {
-							nSucc++
-						} else {
-							badErr++
-						}
-						return true
-					}
-					return false
-				})
-				dw.run(frameFor(f.fn, d.chain), e.To(), 0)
-			}
-			r.check(badErr == 0 && nSucc > 0, "rollback-reservation", spec+"/error-paths("+hp+")", lineOf(w, g),
-				"every error return after the reservation passes removeTrxInVertex("+hp+")", fmt.Sprintf("%d error returns reachable without the removal; %d success returns", badErr, nSucc))
-			// success returns must not be reachable from a removal
-			bad := 0
-			for _, rm := range removals {
-				dw := newDeepWalk(func(x ssa.Instruction, fr *frame) bool {
-					if ret, ok := x.(*ssa.Return); ok && fr.top() {
-						if successReturn(ret) {
-							bad++
-						}
-						return true
-					}
-					return false
-				})
-				dw.run(rm.fr, rm.in.Block(), indexIn(rm.in.Block(), rm.in)+1)
-			}
-			r.check(bad == 0, "rollback-reservation", spec+"/success-paths("+hp+")", lineOf(w, g), "no success return after the index entry was removed", fmt.Sprintf("%d success returns reachable after removeTrxInVertex", bad))
-		}
-	}
+	rollbackReservation(w, r, "rollback-reservation")
 
 	// 3b. deletion of a tentative vertex is followed by removal of its index entry
 	r.rule("delete-with-index", "every DeleteVertex(v) outside truncate is followed on all paths by removeTrxInVertex(v.Transaction.Hash)", 4)
@@ -387,5 +325,72 @@ func storageWriters(w *World, r *Report, rule string) {
 	}
 	if n == 0 {
 		r.bad(rule, "saveVertexToStorage/callers", "-", "the truncation walk saves vertices", "no caller found")
+	}
+}
+
+// rollbackReservation: a rejected admission leaves no index entry behind (shared by C03 and C15).
+func rollbackReservation(w *World, r *Report, rule string) {
+	r.rule(rule, "after a successful reservation every path to an error return passes removeTrxInVertex of the same hash; no path to a success return does", 4)
+	for _, spec := range []string{"addLeafMemorized", "CreateLeaf"} {
+		f := w.fx(r, "accountant", "AccountingBook", spec)
+		if f == nil {
+			continue
+		}
+		for _, d := range deepCalls(f.fn, func(c ssa.CallInstruction) bool { return calleeName(c) == nSaveTrx }, deepDepth) {
+			g := d.c
+			_, ga := callArgs(g)
+			hp := d.path(ga[0])
+			isRemove := func(in ssa.Instruction, fr *frame) bool {
+				c, ok := in.(ssa.CallInstruction)
+				if !ok || calleeName(c) != nRemoveTrx {
+					return false
+				}
+				_, a := callArgs(c)
+				return fr.cx.res(a[0]) == hp
+			}
+			// start on the success edges; helpers are followed, so a helper that cleans up before it reports a
+			// failure counts, and its successful return does not
+			type rmSite struct {
+				in ssa.Instruction
+				fr *frame
+			}
+			var removals []rmSite
+			var badErr, nSucc int
+			for _, e := range passErrNil(g) {
+				dw := newDeepWalk(func(in ssa.Instruction, fr *frame) bool {
+					if isRemove(in, fr) {
+						removals = append(removals, rmSite{in, fr})
+						return true
+					}
+					if ret, ok := in.(*ssa.Return); ok && fr.top() {
+						if successReturn(ret) {
+							nSucc++
+						} else {
+							badErr++
+						}
+						return true
+					}
+					return false
+				})
+				dw.run(frameFor(f.fn, d.chain), e.To(), 0)
+			}
+			r.check(badErr == 0 && nSucc > 0, rule, spec+"/error-paths("+hp+")", lineOf(w, g),
+				"every error return after the reservation passes removeTrxInVertex("+hp+")", fmt.Sprintf("%d error returns reachable without the removal; %d success returns", badErr, nSucc))
+			// success returns must not be reachable from a removal
+			bad := 0
+			for _, rm := range removals {
+				dw := newDeepWalk(func(x ssa.Instruction, fr *frame) bool {
+					if ret, ok := x.(*ssa.Return); ok && fr.top() {
+						if successReturn(ret) {
+							bad++
+						}
+						return true
+					}
+					return false
+				})
+				dw.run(rm.fr, rm.in.Block(), indexIn(rm.in.Block(), rm.in)+1)
+			}
+			r.check(bad == 0, rule, spec+"/success-paths("+hp+")", lineOf(w, g), "no success return after the index entry was removed", fmt.Sprintf("%d success returns reachable after removeTrxInVertex", bad))
+		}
 	}
 }
